@@ -686,4 +686,379 @@ theorem first_contact_sound_extra (C : Crypto) (bs : Array Bytes) (wfork : Nat) 
                         · exact Or.inl h
                         · exact Or.inr (Or.inr (Or.inr h1))
 
+/-! ### the general case: a replica that already has roots (the `grow` branch) -/
+
+/-- the queue's extra node is only ever removed -/
+theorem growLoop_extra (C : Crypto) (rootIndex : Nat) : ∀ (fuel : Nat) (cs : Changeset) (it : Iter) (q : NodeQueue)
+    (res : Changeset × Iter × NodeQueue), growLoop C rootIndex fuel cs it q = .ok res →
+      ∀ e, res.2.2.extra = some e → q.extra = some e := by
+  intro fuel
+  induction fuel with
+  | zero => intro cs it q res h; simp [growLoop] at h
+  | succ fuel ih =>
+    intro cs it q res h e he
+    unfold growLoop at h
+    split at h
+    · simp only [Except.ok.injEq] at h; subst h; exact he
+    · dsimp only at h
+      cases hsh : q.shift it.sibling.index with
+      | error x => rw [hsh] at h; simp at h
+      | ok pr =>
+        obtain ⟨n, q1⟩ := pr
+        rw [hsh] at h
+        simp only [] at h
+        have := ih _ _ q1 res h e he
+        obtain ⟨_, hex⟩ := shift_cases q _ n q1 hsh
+        rcases hex with hx | ⟨_, hx2⟩
+        · rw [← hx]; exact this
+        · rw [hx2] at this; cases this
+
+theorem growLoop_back (C : Crypto) (bs : Array Bytes) (rootIndex : Nat) : ∀ (fuel : Nat) (cs : Changeset) (d o : Nat) (q : NodeQueue)
+    (res : Changeset × Iter × NodeQueue),
+    growLoop C rootIndex fuel cs (iat d o) q = .ok res →
+    (∀ l, cs.roots.getLast? = some l → l.index = Flat.index d o) →
+      (∃ d' o', res.2.1 = iat d' o' ∧ Flat.index d' o' = rootIndex)
+      ∧ (∀ l, res.1.roots.getLast? = some l → l.index = rootIndex)
+      ∧ ((∀ x ∈ res.1.roots, AuthH C bs x) →
+          Collision C ∨ ((∀ x ∈ cs.roots, AuthH C bs x) ∧ ∀ e, q.extra = some e → res.2.2.extra = none → AuthH C bs e)) := by
+  intro fuel
+  induction fuel with
+  | zero => intro cs d o q res h; simp [growLoop] at h
+  | succ fuel ih =>
+    intro cs d o q res h hlast
+    unfold growLoop at h
+    split at h
+    · rename_i hidx
+      simp only [Except.ok.injEq] at h
+      subst h
+      have hidx' : Flat.index d o = rootIndex := hidx
+      refine ⟨⟨d, o, rfl, hidx'⟩, fun l hl => by rw [hlast l hl, hidx'], fun hall => Or.inr ⟨hall, fun e he hn => ?_⟩⟩
+      simp only at hn; rw [he] at hn; cases hn
+    · rw [iat_sibling] at h
+      dsimp only at h
+      cases hsh : q.shift (iat d (sib o)).index with
+      | error e => rw [hsh] at h; simp at h
+      | ok pr =>
+        obtain ⟨n, q1⟩ := pr
+        rw [hsh] at h
+        simp only [] at h
+        obtain ⟨hni, hex⟩ := shift_cases q _ n q1 hsh
+        obtain ⟨⟨d1, o1, h1, l1, hl1, hl1i⟩, hback⟩ := appendRoot_back C bs cs n d (sib o) hni
+        generalize har : appendRoot C cs n (iat d (sib o)) = ar at h h1 hl1 hback
+        obtain ⟨cs1, it1⟩ := ar
+        simp only at h h1 hl1 hback
+        rw [h1] at h
+        obtain ⟨hc, hl, hb2⟩ := ih cs1 d1 o1 q1 res h (fun l hl => by rw [hl1] at hl; cases hl; exact hl1i)
+        refine ⟨hc, hl, fun hall => ?_⟩
+        rcases hb2 hall with hcol | ⟨hA1, hE1⟩
+        · exact Or.inl hcol
+        · rcases hback hA1 with hcol | ⟨hA0, hAn⟩
+          · exact Or.inl hcol
+          · refine Or.inr ⟨hA0, fun e he hn => ?_⟩
+            rcases hex with hx | ⟨hx1, hx2⟩
+            · exact hE1 e (by rw [hx, he]) hn
+            · have : e = n := by rw [he] at hx1; exact Option.some.inj hx1
+              subst this; exact hAn
+
+/-- the invariant of `verify_upgrade`'s root loop on an honest replica: aligned leaf iterator; until the first
+    node is consumed the roots are the replica's own; once all of them are matched, or a node was consumed, the
+    last root is deep enough that the next full root cannot merge with it -/
+structure Grown (cs0 : Changeset) (st : UpState) (s T : Nat) : Prop where
+  it : st.it = iat 0 s
+  al : Align s T
+  own : st.grow = true → st.cs = cs0
+  last : (st.grow = false ∨ st.cs.roots.length ≤ st.i) → ∀ r, st.cs.roots.getLast? = some r → ∃ m o, r.index = Flat.index m o ∧ T < s + 2 ^ m ∧ m ≤ 64
+
+theorem upgradeRoots_back (C : Crypto) (bs : Array Bytes) (T : Nat) (hT : T < 2 ^ 64) (cs0 : Changeset)
+    (hcanon : ∀ l, cs0.roots.getLast? = some l → ∃ d o, l.index = Flat.index d o ∧ d ≤ 64) :
+    ∀ (fuel : Nat) (st st' : UpState) (s : Nat), Grown cs0 st s T → upgradeRoots C (2 * T) fuel st = .ok st' →
+      (∀ r, st'.cs.roots.getLast? = some r → ∃ m o, r.index = Flat.index m o ∧ m ≤ 64)
+      ∧ ((∀ x ∈ st'.cs.roots, AuthH C bs x) →
+        Collision C ∨ ((∀ x ∈ st.cs.roots, AuthH C bs x) ∧ ∀ e, st.q.extra = some e → st'.q.extra = none → AuthH C bs e)) := by
+  intro fuel
+  induction fuel with
+  | zero => intro st st' s _ h; simp [upgradeRoots] at h
+  | succ fuel ih =>
+    intro st st' s hg h
+    unfold upgradeRoots at h
+    rw [hg.it] at h
+    by_cases hs : s < T
+    · obtain ⟨J, hfr, hd, hfit, hal', hmax⟩ := fullRoot_canon s T hg.al hs hT
+      rw [hfr] at h
+      simp only [Bool.not_true, Bool.false_eq_true, ite_false] at h
+      have hnext : (iat J (s / 2 ^ J)).nextTree = iat 0 (s + 2 ^ J) := iat_nextTree J s hd
+      have hJ64 : J ≤ 64 := by
+        by_cases hle : J ≤ 64
+        · exact hle
+        · exfalso
+          have : 2 ^ 64 ≤ 2 ^ J := Nat.pow_le_pow_right (by decide) (by omega)
+          omega
+      split at h
+      · -- an existing root at this position
+        rename_i hmatch
+        have hg' : Grown cs0 { st with i := st.i + 1, it := (iat J (s / 2 ^ J)).nextTree } (s + 2 ^ J) T :=
+          ⟨hnext, hal', hg.own, fun hc r hr => by
+            rcases hc with hc | hc
+            · obtain ⟨m, o, h1, h2, h3⟩ := hg.last (Or.inl hc) r hr
+              exact ⟨m, o, h1, by omega, h3⟩
+            · -- all roots matched now: the one just matched is the last
+              have hi : st.i = st.cs.roots.length - 1 := by have := hmatch.1; simp only at hc; omega
+              have hr' : st.cs.roots.getLast? = some r := hr
+              have hget : st.cs.roots.getD st.i default = r := by
+                rw [List.getLast?_eq_getElem?] at hr'
+                rw [hi, List.getD_eq_getElem?_getD, hr']; rfl
+              refine ⟨J, s / 2 ^ J, ?_, hmax, hJ64⟩
+              rw [← hget]; exact hmatch.2⟩
+        exact ih { st with i := st.i + 1, it := (iat J (s / 2 ^ J)).nextTree } st' _ hg' h
+      · rename_i hnomatch
+        split at h
+        · -- grow: the replica's last roots are merged upwards into this full root
+          rename_i hgrow
+          have hown := hg.own hgrow.1
+          cases hlastq : st.cs.roots.getLast? with
+          | none =>
+            exfalso
+            have := hgrow.2
+            have hne : st.cs.roots ≠ [] := by intro e; rw [e] at this; simp at this
+            rw [List.getLast?_eq_none_iff] at hlastq; exact hne hlastq
+          | some l =>
+            obtain ⟨dl, ol, hli, hdl⟩ := hcanon l (by rw [← hown]; exact hlastq)
+            have hnewl : Iter.new (st.cs.roots.getLast?.getD default).index = iat dl ol := by
+              rw [hlastq]; simp only [Option.getD_some]; rw [hli]; exact Offsets.new_index dl ol hdl
+            rw [hnewl] at h
+            cases hgl : growLoop C (iat J (s / 2 ^ J)).index (st.q.nodes.length + 3) st.cs (iat dl ol) st.q with
+            | error e => rw [hgl] at h; simp at h
+            | ok res =>
+              rw [hgl] at h
+              obtain ⟨cs1, it1, q1⟩ := res
+              simp only [] at h
+              obtain ⟨⟨d1, o1, hit1, hidx1⟩, hl1, hbackG⟩ := growLoop_back C bs _ _ st.cs dl ol st.q (cs1, it1, q1) hgl
+                (fun l' hl' => by rw [hlastq] at hl'; cases hl'; exact hli)
+              simp only at hit1 hl1 hbackG
+              have hit1' : it1 = iat J (s / 2 ^ J) := by
+                rw [hit1]
+                have : Flat.index d1 o1 = Flat.index J (s / 2 ^ J) := hidx1
+                obtain ⟨rfl, rfl⟩ := index_inj _ _ _ _ this
+                rfl
+              have hg' : Grown cs0 { st with cs := cs1, it := it1.nextTree, q := q1, grow := false } (s + 2 ^ J) T :=
+                ⟨by show it1.nextTree = _; rw [hit1', hnext], hal', (fun hc => by cases hc), fun _ r hr => by
+                  have := hl1 r hr
+                  exact ⟨J, s / 2 ^ J, this, hmax, hJ64⟩⟩
+              obtain ⟨ihl, ihb⟩ := ih { st with cs := cs1, it := it1.nextTree, q := q1, grow := false } st' _ hg' h
+              refine ⟨ihl, fun hall => ?_⟩
+              rcases ihb hall with hcol | ⟨hA1, hE1⟩
+              · exact Or.inl hcol
+              · rcases hbackG hA1 with hcol | ⟨hA0, hE0⟩
+                · exact Or.inl hcol
+                · refine Or.inr ⟨hA0, fun e he hn => ?_⟩
+                  by_cases hq1 : q1.extra = none
+                  · exact hE0 e he hq1
+                  · -- not consumed while growing: consumed later
+                    have hsame : q1.extra = some e := by
+                      -- the queue only ever loses its extra node
+                      cases hq : q1.extra with
+                      | none => exact absurd hq hq1
+                      | some e' =>
+                        have := growLoop_extra C _ _ st.cs (iat dl ol) st.q (cs1, it1, q1) hgl e' hq
+                        rw [he] at this; rw [Option.some.inj this]
+                    exact hE1 e hsame hn
+        · -- the next supplied node becomes a root
+          rename_i hnogrow
+          cases hsh : st.q.shift (iat J (s / 2 ^ J)).index with
+          | error e => rw [hsh] at h; simp at h
+          | ok pr =>
+            obtain ⟨n, q1⟩ := pr
+            rw [hsh] at h
+            simp only [] at h
+            obtain ⟨hni, hex⟩ := shift_cases st.q _ n q1 hsh
+            have hcond : st.grow = false ∨ st.cs.roots.length ≤ st.i := by
+              by_cases hgr : st.grow = true
+              · right
+                by_cases hle : st.cs.roots.length ≤ st.i
+                · exact hle
+                · exact absurd ⟨hgr, by omega⟩ hnogrow
+              · left; simpa using hgr
+            have hnm : ∀ b, st.cs.roots.getLast? = some b → (iat J (s / 2 ^ J)).sibling.index ≠ b.index := by
+              intro b hb hcon
+              obtain ⟨m, o, h1, h2, _⟩ := hg.last hcond b hb
+              rw [iat_sibling, h1] at hcon
+              have := (index_inj _ _ _ _ hcon).1
+              have hlt : 2 ^ J < 2 ^ m := by omega
+              have := (Nat.pow_lt_pow_iff_right (by decide : 1 < 2)).mp hlt
+              omega
+            obtain ⟨hroots, hit⟩ := appendRoot_nomerge C st.cs n (iat J (s / 2 ^ J)) hnm
+            have hit' : (appendRoot C st.cs n (iat J (s / 2 ^ J))).2 = iat J (s / 2 ^ J) := by
+              rcases hit with e | e
+              · exact e
+              · rw [e, iat_sibling_sibling]
+            generalize har : appendRoot C st.cs n (iat J (s / 2 ^ J)) = ar at h hroots hit'
+            obtain ⟨cs1, it1⟩ := ar
+            simp only at h hroots hit'
+            have hg' : Grown cs0 { st with cs := cs1, it := it1.nextTree, q := q1, grow := false } (s + 2 ^ J) T :=
+              ⟨by show it1.nextTree = _; rw [hit', hnext], hal', (fun hc => by cases hc), fun _ r hr => by
+                have hr' : cs1.roots.getLast? = some r := hr
+                rw [hroots] at hr'
+                simp at hr'
+                subst hr'
+                exact ⟨J, s / 2 ^ J, hni, hmax, hJ64⟩⟩
+            obtain ⟨ihl, ihb⟩ := ih { st with cs := cs1, it := it1.nextTree, q := q1, grow := false } st' _ hg' h
+            refine ⟨ihl, fun hall => ?_⟩
+            rcases ihb hall with hcol | ⟨hA1, hE1⟩
+            · exact Or.inl hcol
+            · have hA1' : ∀ x ∈ cs1.roots, AuthH C bs x := hA1
+              rw [hroots] at hA1'
+              refine Or.inr ⟨fun x hx => hA1' x (by simp [hx]), fun e he hn => ?_⟩
+              rcases hex with hx | ⟨hx1, hx2⟩
+              · exact hE1 e (by show q1.extra = some e; rw [hx, he]) hn
+              · have : e = n := by rw [he] at hx1; exact Option.some.inj hx1
+                subst this
+                exact hA1' e (by simp)
+    · rw [fullRoot_done s T (by omega)] at h
+      simp only [Bool.not_false, ite_true, Except.ok.injEq] at h
+      subst h
+      refine ⟨fun r hr => ?_, fun hall => Or.inr ⟨hall, fun e he hn => by simp only at hn; rw [he] at hn; cases hn⟩⟩
+      have hr' : st.cs.roots.getLast? = some r := hr
+      by_cases hcond : st.grow = false ∨ st.cs.roots.length ≤ st.i
+      · obtain ⟨m, o, h1, _, h3⟩ := hg.last hcond r hr'
+        exact ⟨m, o, h1, h3⟩
+      · have hgr : st.grow = true := by
+          cases hgv : st.grow with
+          | true => rfl
+          | false => exact absurd (Or.inl hgv) hcond
+        have hown := hg.own hgr
+        exact hcanon r (by rw [← hown]; exact hr')
+
+/-- **Block + upgrade on any honest replica** (C04).  The replica's own roots sit at tree positions (`hcanon`:
+    the last one at depth ≤ 64 — true of the reference roots of any log shorter than 2^64); the proof carries a
+    block and an upgrade (no seek section).  If `verify_proof` accepts, the block is the writer's block at that
+    index (within the adopted length when the upgrade consumed the block's root) — unless a collision of `leaf`,
+    `parent` or the root-list hash is exhibited.  The `grow` branch (the replica's last roots merged upwards
+    into a larger signed root) is covered: authenticity flows backwards from the signed roots through every
+    merge (`mergeLoop_back`), because all iterators involved are canonical and depend on the claimed length only. -/
+theorem block_upgrade_sound (C : Crypto) (bs : Array Bytes) (wfork : Nat) (Signed : Bytes → Prop)
+    (t : Tree) (f : File) (pk : Bytes) (p : Proof) (b : DataBlock) (u : DataUpgrade) (cs' : Changeset)
+    (hb : p.block = some b) (hs : p.seek = none) (hu : p.upgrade = some u)
+    (hcanon : ∀ l, t.changeset.roots.getLast? = some l → ∃ d o, l.index = Flat.index d o ∧ d ≤ 64)
+    (hunf : ∀ m sig, C.verify pk m sig = true → Signed m)
+    (hsig : ∀ m, Signed m → ∃ n, n ≤ bs.size ∧ m = RefTree.signableOf C (bs.extract 0 n) wfork)
+    (hlen : ∀ x, (C.tree x).length = 32) (hsize : bs.size < 2 ^ 64) (hwf : wfork < 2 ^ 64)
+    (hb1 : cs'.length < 2 ^ 64) (hb2 : p.fork < 2 ^ 64) (hT : u.start + u.length < 2 ^ 64)
+    (hauth : StoreAuthentic C bs t f)
+    (hv : t.verifyProof C f p pk = .ok cs') :
+    Collision C ∨ TreeCollision C ∨ b.value = bs.getD b.index [] ∨ b.value = (bs.extract 0 cs'.length).getD b.index [] := by
+  unfold verifyProof at hv
+  simp only [hb, hs, hu, verifyTree, untrustedOf, noSeekOf, Option.isNone_some, Bool.false_and, Bool.false_eq_true,
+    ite_false, seekHalf, andThen, mainHalf] at hv
+  have hnew : Iter.new (b.index * 2) = iat 0 b.index := by rw [Nat.mul_comm]; exact new_even b.index
+  rw [hnew, plainQueue_eq] at hv
+  cases hc : climb C ((plainQueue b.nodes).length + 1) (plainQueue b.nodes) (iat 0 b.index)
+      (blockNode C (iat 0 b.index).index b.value) (blockNode C (iat 0 b.index).index b.value :: t.changeset.rnodes) with
+  | error e => rw [hc] at hv; simp at hv
+  | ok pr =>
+    obtain ⟨root, rn'⟩ := pr
+    rw [hc] at hv
+    simp only [] at hv
+    obtain ⟨hidx, _⟩ := climb_sound C bs b.nodes _ 0 b.index _ _ root rn' hc rfl
+    simp only [Nat.zero_add] at hidx
+    have hix : (iat 0 b.index).index = Flat.index 0 b.index := rfl
+    rw [hix] at hc
+    generalize hcs1 : ({ t.changeset with rnodes := rn' } : Changeset) = cs1 at hv
+    have hcs1r : cs1.roots = t.changeset.roots := by rw [← hcs1]
+    cases hvu : verifyUpgrade C p.fork u (some root) pk cs1 with
+    | error e => rw [hvu] at hv; simp at hv
+    | ok pr2 =>
+      obtain ⟨consumed, cs2⟩ := pr2
+      rw [hvu] at hv
+      simp only [] at hv
+      have hup := upgrade_sound C bs wfork Signed p.fork u (some root) pk cs1 cs2 consumed hunf hsig hlen hsize hwf
+      cases hcon : consumed with
+      | false =>
+        rw [hcon] at hv
+        simp only [Bool.false_eq_true, ite_false] at hv
+        cases hreq : t.requiredNode f root.index with
+        | error e => rw [hreq] at hv; simp at hv
+        | ok v =>
+          rw [hreq] at hv
+          simp only [] at hv
+          by_cases hne : v.hash ≠ root.hash
+          · simp [hne] at hv
+          · have heq : v.hash = root.hash := by simpa using hne
+            have hnode : t.node? f root.index = some v := by
+              unfold requiredNode at hreq
+              cases hn : t.node? f root.index with
+              | none => simp [hn] at hreq
+              | some w => simp [hn] at hreq; rw [hreq]
+            rw [hidx] at hnode
+            have hrh : root.hash = (RefTree.node C bs b.nodes.length (b.index / 2 ^ b.nodes.length)).2 := by
+              rw [← heq]; exact hauth _ _ _ hnode
+            rcases block_sound C bs b.index b.value b.nodes _ _ root rn' hc hrh with h | ⟨h1, _, _⟩
+            · exact Or.inl h
+            · exact Or.inr (Or.inr (Or.inl h1))
+      | true =>
+        have hvu0 := hvu
+        rw [hcon] at hv hvu
+        simp only [ite_true, Except.ok.injEq] at hv
+        subst hv
+        rcases hup hb1 hb2 hvu0 with hcol | ⟨hL, _, hroots⟩
+        · exact Or.inr (Or.inl hcol)
+        · have hA2 := roots_auth C (bs.extract 0 cs2.length) cs2.roots hroots
+          unfold verifyUpgrade at hvu
+          simp only [andThen] at hvu
+          cases hur : upgradeRoots C (2 * (u.start + u.length)) (2 * (u.start + u.length) + 2)
+              ⟨cs1, Iter.new 0, NodeQueue.new u.nodes (some root), 0, !cs1.roots.isEmpty⟩ with
+          | error e => rw [hur] at hvu; simp at hvu
+          | ok st =>
+            rw [hur] at hvu
+            simp only [] at hvu
+            cases hlast : st.cs.roots.getLast? with
+            | none => rw [hlast] at hvu; simp at hvu
+            | some last =>
+              rw [hlast] at hvu
+              simp only [] at hvu
+              have hgrown0 : Grown cs1 ⟨cs1, Iter.new 0, NodeQueue.new u.nodes (some root), 0, !cs1.roots.isEmpty⟩ 0 (u.start + u.length) :=
+                ⟨by show Iter.new 0 = iat 0 0; exact new_even 0, align_zero _, fun _ => rfl, fun hc r hr => by
+                  exfalso
+                  have hr' : cs1.roots.getLast? = some r := hr
+                  have hne : cs1.roots ≠ [] := by intro e; rw [e] at hr'; cases hr'
+                  rcases hc with hc | hc
+                  · have hc' : (!cs1.roots.isEmpty) = false := hc
+                    apply hne; simpa using hc'
+                  · have hc' : cs1.roots.length ≤ 0 := hc
+                    apply hne; exact List.eq_nil_of_length_eq_zero (by omega)⟩
+              obtain ⟨hlastpos, hbackU⟩ := upgradeRoots_back C (bs.extract 0 cs2.length) (u.start + u.length) hT cs1
+                (fun l hl => hcanon l (by rw [← hcs1r]; exact hl)) _ _ st 0 hgrown0 hur
+              obtain ⟨m, o, hli, hm64⟩ := hlastpos last hlast
+              have hnewlast : Iter.new last.index = iat m o := by rw [hli]; exact Offsets.new_index m o hm64
+              rw [hnewlast] at hvu
+              obtain ⟨⟨d', o', hcan⟩, hbackS⟩ := extraSiblings_back C (bs.extract 0 cs2.length) (u.additionalNodes.length + 1) st.cs m o u.additionalNodes
+              generalize hes : extraSiblings C (u.additionalNodes.length + 1) st.cs (iat m o) u.additionalNodes = es at hvu hcan hbackS
+              obtain ⟨csS, itS, exS⟩ := es
+              simp only at hvu hcan hbackS
+              cases her : extraRest C csS itS exS with
+              | error e => rw [her] at hvu; simp at hvu
+              | ok x =>
+                rw [her] at hvu
+                simp only [checkSignature] at hvu
+                split at hvu
+                · cases hvu
+                · split at hvu
+                  · cases hvu
+                  · simp only [Except.ok.injEq, Prod.mk.injEq] at hvu
+                    obtain ⟨hcons, hcs2⟩ := hvu
+                    have hAx : ∀ y ∈ x.1.roots, AuthH C (bs.extract 0 cs2.length) y := by
+                      intro y hy; apply hA2; rw [← hcs2]; exact hy
+                    rw [hcan] at her
+                    rcases extraRest_back C (bs.extract 0 cs2.length) exS csS d' o' x her hAx with hcol | hAS
+                    · exact Or.inl hcol
+                    · rcases hbackS hAS with hcol | hAst
+                      · exact Or.inl hcol
+                      · rcases hbackU hAst with hcol | ⟨_, hE⟩
+                        · exact Or.inl hcol
+                        have hrA := hE root rfl (by simpa using hcons)
+                        have hrh := hrA _ _ hidx
+                        rcases block_sound C (bs.extract 0 cs2.length) b.index b.value b.nodes _ _ root rn' hc hrh with h | ⟨h1, _, _⟩
+                        · exact Or.inl h
+                        · exact Or.inr (Or.inr (Or.inr h1))
+
+
 end HC.UpgradeSound
